@@ -82,7 +82,8 @@ PAIRS = []          # (name, variant, term, variant term): the hypothesis of the
 def behaviour_case(ck, name, cfg, steps):
     """key order / formatting must not matter: same inventory, same behaviour under the same actions."""
     import yaml
-    rng = random.Random(hash(name) & 0xffff)
+    import zlib
+    rng = random.Random(zlib.crc32(name.encode()))
     variants = [("keys-shuffled", shuffle_keys(copy.deepcopy(cfg), rng)),
                 ("yaml-round-trip-sorted-flow", yaml.safe_load(yaml.safe_dump(copy.deepcopy(cfg), sort_keys=True, default_flow_style=True)))]
     it = inv20.Interner()
@@ -104,8 +105,9 @@ def behaviour_case(ck, name, cfg, steps):
         for t, (a, b) in enumerate(zip(base, tr)):
             if a != b:
                 ck.violation("reordered-scenario-behaves-differently:%s" % vname,
-                             "%s and its %s variant differ at step %d (%s)" % (name, vname, t, "inventory" if t == 0 else "state digest / reward / observation"),
-                             {"scenario": name, "variant": vname, "step": t})
+                             "%s and its %s variant differ at step %d (%s)" % (name, vname, t, "inventory" if t == 0 else
+                                                                                 ", ".join(n for n, x, y in zip(("state digest", "reward", "observation"), a, b) if x != y)),
+                             {"scenario": name, "variant": vname, "step": t, "base": [str(x)[:300] for x in a] if t else None, "variant_record": [str(x)[:300] for x in b] if t else None})
                 break
 
 
@@ -125,7 +127,10 @@ def run_trace(cfg, steps, seed):
     for t in range(steps):
         a = rng.randrange(n)
         obs, rew, term, trunc, info = env.step(a)
-        out.append((world.state_digest(env.game.simulation.describe_state()), round(float(rew), 9), json.dumps(world.norm_state(obs if isinstance(obs, dict) else list(map(float, obs))), sort_keys=True)))
+        # the observation is compared leaf by leaf through its nested form: the LAYOUT of a flattened vector follows the order in
+        # which the scenario lists observation options (e.g. monitored protocols), which the property does not speak about
+        nested = env.agent.observation_manager.current_observation
+        out.append((world.state_digest(env.game.simulation.describe_state()), round(float(rew), 9), json.dumps(world.norm_state(nested), sort_keys=True, default=str)))
         if term or trunc:
             break
     return out
